@@ -44,8 +44,13 @@ def cases(tier, seed):
     out = escape_family() + geometry_family()
     cs = carriers.conforming("quick", cap=10 if tier == "quick" else 60)
     from . import diffcommon
-    files = [(e["fname"], e["text"]) for e in diffcommon.enriched()] + [(c["fname"], c["text"]) for c in cs]
-    for fname, text in files:
+    files = [(e["fname"], e["text"], 12) for e in diffcommon.enriched()] + [(c["fname"], c["text"], 12) for c in cs]
+    # the sample inputs of norminette's own tests (constructs the model does not derive), as they are and varied
+    from .. import corpus
+    smp = corpus.samples() if tier != "quick" else corpus.sample_slice(seed, 3)
+    files += [(fn, t, 0) for fn, t in smp]
+    out += [(f"sample:{fn}", t) for fn, t in corpus.samples()]
+    for fname, text, first_line in files:
         toks, errs, exc = impl.lex(text, fname)
         if toks is None:
             continue
@@ -53,7 +58,7 @@ def cases(tier, seed):
         if not al["ok"]:
             continue
         spans = al["spans"]
-        body0 = next((i for i, t in enumerate(toks) if t.pos[0] >= 12), 0)
+        body0 = next((i for i, t in enumerate(toks) if t.pos[0] >= first_line), 0)
         idx = list(range(body0, len(toks)))
         step = 7 if tier == "quick" else 2
         # one splice at a token boundary
